@@ -88,11 +88,13 @@ def token_bytes(tok, a, b, built: Built):
     """bytes [a, b) (relative to the cell start) of a cell whose source is `tok`."""
     k = tok["k"]
     n = b - a
+    if built.tok_bytes is not None:
+        r = built.tok_bytes(tok, a, n)
+        if r is not None:
+            return r
     if k == "Z":
         return bytes(n)
     if k == "D":
-        if built.tok_bytes is not None:
-            return built.tok_bytes(tok, a, n)
         c = tok["c"]
         stride = built.stride or built.cb * built.cell
         return patterns.pat(tok["f"], built.bases[tok["f"]] + (c // built.cb) * stride + (c % built.cb) * built.cell + a, n)
